@@ -218,6 +218,33 @@ def check(ctx):
     ok = any(isinstance(n, ast.Assign) and is_self_attr(n.targets[0], "_count") and isinstance(n.value, ast.Constant) and n.value.value == 0 for n in walk_own(cac.node)) \
         and any(dotted(c.func) == "FoldReducer.clear" for c in P.calls_in(cac))
     ctx.ob("C07.c", "CAReducer.clear resets its counter and delegates", ok, "", cac.where)
+    # every piece of state a fold method accumulates in `self` (running counts ...) is reset by clear on *every* path
+    # (clear(keepshape=True) included) and clear still reaches FoldReducer.clear on every path
+    nstate = 0
+    for c in sorted(P.all_classes, key=lambda c: c.name):
+        if not c.is_subclass_of("FoldReducer") or c.name == "FoldReducer":
+            continue
+        fold = c.methods.get("fold")
+        if fold is None:
+            continue
+        acc = sorted({t.attr for n in walk_own(fold.node) if isinstance(n, (ast.Assign, ast.AugAssign, ast.AnnAssign))
+                      for t in (n.targets if isinstance(n, ast.Assign) else [n.target])
+                      if isinstance(t, ast.Attribute) and isinstance(t.value, ast.Name) and t.value.id == "self"})
+        for attr in acc:
+            nstate += 1
+            clr_ = c.find_method("clear") if hasattr(c, "find_method") else next((k.methods["clear"] for k in c.mro if "clear" in k.methods), None)
+            own = clr_ is not None and clr_.cls is not None and clr_.cls.name != "FoldReducer"
+            ok = False
+            why = f"{c.name} inherits FoldReducer.clear, which does not know about self.{attr}"
+            if own:
+                g = CFG(clr_.node)
+                stores = [n for n in g.nodes if n.kind == "stmt" and isinstance(n.ast, ast.Assign) and is_self_attr(n.ast.targets[0], attr)]
+                deleg = g.stmt_nodes_calling(lambda call: dotted(call.func) in ("FoldReducer.clear", "super().clear") or
+                                             (isinstance(call.func, ast.Attribute) and call.func.attr == "clear" and dotted(call.func.value) not in (None, "self")))
+                ok = bool(stores) and g.must_pass(stores) and bool(deleg) and g.must_pass(deleg)
+                why = "" if ok else f"a path through {c.name}.clear leaves self.{attr} as it was or skips the base clear: the next fold continues from stale state"
+            ctx.ob("C07.c", f"{c.name}.clear resets the fold state self.{attr} on every path", ok, why, (clr_ or fold).where)
+    ctx.require("C07.c", "fold-state attributes accumulated in self", nstate, 1)
 
     # ---------------- (d) interpolation table
     for cname, (fn, tcattr) in INTERP.items():
